@@ -14,7 +14,6 @@ Inductive cls :=
 | CParenGroup      (* a parenthesised group is one unknown token: skipped *)
 | CNotOrArity      (* NOT / OR take one token plus at most one argument *)
 | CUnknownKey      (* unknown keys are skipped, the reply is OK *)
-| CSubstringFlag   (* flags are tested with strings.Contains on the flag string *)
 | CTextAtom        (* header / body / sent-date evaluation differs from the field semantics on this message *)
 | CUidSingle       (* UID SEARCH UID n (no colon) returns nothing *)
 | CUidIgnoresKeys (* UID SEARCH evaluates nothing but ALL and UID a:b *)
@@ -23,7 +22,7 @@ Inductive cls :=
 Definition cls_eqb (a b : cls) : bool :=
   match a, b with
   | CCommaSet, CCommaSet | CStar, CStar | CReversedRange, CReversedRange | CParenGroup, CParenGroup
-  | CNotOrArity, CNotOrArity | CUnknownKey, CUnknownKey | CSubstringFlag, CSubstringFlag
+  | CNotOrArity, CNotOrArity | CUnknownKey, CUnknownKey
   | CTextAtom, CTextAtom | CUidSingle, CUidSingle | CUidIgnoresKeys, CUidIgnoresKeys | CQuotedSpace, CQuotedSpace => true
   | _, _ => false
   end.
@@ -73,8 +72,9 @@ Fixpoint wf_key (k : key) : bool :=
   end.
 Definition wf_prog (ks : list key) : bool := match ks with [] => false | _ => forallb wf_key ks end.
 
-(** the client's view is well formed: no flag contains a space (flags are atoms) *)
-Definition flag_ok (f : str) : bool := negb (existsb (Ascii.eqb sp) f).
+(** the client's view is well formed: a flag is a non-empty word without white space
+    (it is what FETCH FLAGS (...) lists between blanks) *)
+Definition flag_ok (f : str) : bool := match f with [] => false | _ => forallb (fun c => negb (is_space c)) f end.
 Definition mb_ok (mb : list smsg) : bool := forallb (fun m => forallb flag_ok (s_flags m)) mb.
 
 (** ** classes *)
@@ -85,12 +85,6 @@ Definition set_class (s : list sitem) : option cls :=
   | [_] => Some CStar
   | _ => Some CCommaSet
   end.
-
-(** no flag of the mailbox properly contains [w] *)
-Definition flag_clean (w : str) (mb : list smsg) : bool :=
-  forallb (fun m => forallb (fun f => negb (contains f w) || str_eqb f w) (s_flags m)) mb.
-Definition flag_class (w : str) (mb : list smsg) : option cls :=
-  if flag_clean w mb then None else Some CSubstringFlag.
 
 (** model and field semantics agree for the text key [k] on every message *)
 Definition text_agree_on (k : key) (im : Z * smsg) : bool :=
@@ -109,9 +103,7 @@ Definition text_class (k : key) (mb : list smsg) : option cls :=
 Definition simple_class (k : key) (mb : list smsg) : option cls :=
   match k with
   | KAll => None
-  | KHas f | KUn f => flag_class (flag_name f) mb
-  | KNew => match flag_class flag_recent mb with None => flag_class flag_seen mb | c => c end
-  | KKeyword w | KUnkeyword w => flag_class w mb
+  | KHas _ | KUn _ | KNew | KKeyword _ | KUnkeyword _ => None   (* whole-flag comparison since fix 378938d *)
   | KSeq s | KUid s => set_class s
   | KHdr _ _ | KHeader _ _ | KBody _ | KDate true _ _ => text_class k mb
   | KText _ | KLarger _ | KSmaller _ | KDate false _ _ => None
